@@ -377,7 +377,8 @@ int main(int argc, char** argv) {
                 if (t[3] != "-") { xd.m_validation_weight_left = atoll(t[3].c_str()); xd.m_validation_weight_left_init = true; }
             }
             else if (cmd == "TCE") {
-                c->inst->tce = new TaprootCommitmentEnv(unhx(t[1]), unhx(t[2]), CScript(unhx(t[3]).begin(), unhx(t[3]).end()), &c->inst->execdata.m_tapleaf_hash);
+                auto scr = unhx(t[3]);
+                c->inst->tce = new TaprootCommitmentEnv(unhx(t[1]), unhx(t[2]), CScript(scr.begin(), scr.end()), &c->inst->execdata.m_tapleaf_hash);
                 c->inst->execdata.m_tapleaf_hash_init = true;
             }
             else if (cmd == "CF") {
